@@ -35,6 +35,11 @@ def run(res, args):
                         "responses, each rendering produced 65 times; fields compared with the model fl_fields, renderings judged by render_ok",
                    samples=lines[:: max(1, len(lines) // 5)][:5], disagreements_checked=mism, judge_failures=bad,
                    unreachable_via_api=[l.split()[0] for l in lines if " unreachable " in l])
+    for l in lines:
+        f = l.split()
+        if len(f) > 2 and f[1] == "altered":
+            res.add_violation("the field set decoded for one value changed when another value of the same type was decoded",
+                              key="C15:altered:%s" % f[0], input={"factory": f[0], "raw": f[2]}, observed=l)
     for l in out.splitlines():
         if l.startswith("JUDGE-FAIL"):
             f = l.split()
